@@ -89,14 +89,39 @@ def firstCode : List Item → Option Item
   | [] => none
   | x :: rest => if x.isComment then firstCode rest else some x
 
-/-- pun collapse: `x = x` and `x` are the same spelling (comments may sit on either side of the
-`=`; they stay where they are, in front of the surviving token) -/
+/-- the first item that is neither a comment nor an opening parenthesis -/
+def firstValue : List Item → Option Item
+  | [] => none
+  | x :: rest => if x.isComment || x == .punct "(" then firstValue rest else some x
+
+/-- leading comments and closing parentheses of a list, and what follows them -/
+def spanTrail : List Item → List Item × List Item
+  | [] => ([], [])
+  | x :: rest =>
+    if x.isComment || x == .punct ")" then
+      let (cs, tail) := spanTrail rest
+      (x :: cs, tail)
+    else ([], x :: rest)
+
+theorem spanTrail_length (l : List Item) :
+    (spanTrail l).1.length + (spanTrail l).2.length = l.length := by
+  induction l with
+  | nil => rfl
+  | cons x rest ih =>
+    unfold spanTrail
+    split
+    · simp only [List.length_cons]; omega
+    · simp
+
+/-- pun collapse: `x = x` and `= x` are the same spelling (name and value may each sit in
+redundant parentheses, and comments may sit on either side of the `=`; all of these stay where
+they are): the name in front of the `=` is dropped when the value behind it is the same name. -/
 def collapsePuns : List Item → List Item
   | [] => []
   | .content a :: rest =>
-    match h : spanComments rest with
+    match h : spanTrail rest with
     | (cs, .punct "=" :: tail) =>
-      if firstCode tail == some (.content a) then cs ++ collapsePuns tail
+      if firstValue tail == some (.content a) then cs ++ .punct "=" :: collapsePuns tail
       else .content a :: cs ++ .punct "=" :: collapsePuns tail
     | _ => .content a :: collapsePuns rest
   | x :: rest => x :: collapsePuns rest
@@ -104,10 +129,12 @@ termination_by l => l.length
 decreasing_by
   all_goals simp_wf
   all_goals
-    have := spanComments_length rest
-    rw [h] at this
-    simp only [List.length_cons] at this
-    omega
+    first
+      | omega
+      | (have := spanTrail_length rest
+         rw [h] at this
+         simp only [List.length_cons] at this
+         omega)
 
 /-- what must be preserved, in order: content tokens and comments. Keywords and punctuation may
 be rewritten by the documented transformations (merged binder telescopes drop `fn`, `forall`,
@@ -118,17 +145,9 @@ def essential : List Item → List Item
   | .keyword _ :: rest => essential rest
   | x :: rest => x :: essential rest
 
-/-- drop punctuation other than `=` and all keywords: redundant parentheses must be gone before
-puns are compared (`x = ((x))` and `x = x` are the same spelling) -/
-def skeleton : List Item → List Item
-  | [] => []
-  | .punct t :: rest => if t = "=" then .punct t :: skeleton rest else skeleton rest
-  | .keyword _ :: rest => skeleton rest
-  | x :: rest => x :: skeleton rest
-
 /-- the normal form compared by the oracle -/
 def normalize (items : List Item) : List Item :=
-  (essential (collapsePuns (skeleton (markUnits items)))).map canonComment
+  (essential (collapsePuns (markUnits items))).map canonComment
 
 /-- the comments, in order -/
 def comments (l : List Item) : List Item := l.filter Item.isComment
